@@ -128,8 +128,17 @@ def execute(scenario):
         calls = [ep["reset"]] + ep["steps"]
         upto = None
         following = None
-        for c in calls:
-            if c.get("now") is not None and c["now"] <= cut and c.get("exc") is None:
+        # the timestep each call lands on comes from the scenario (not from the clock the
+        # environment reports, which a look-ahead defect could itself move)
+        dmodel = Delivery(env, gen_epi.auto_disc(env))
+        steps_fold = dmodel.fold_steps(ep["reset"]["fold"])
+        i0 = 0
+        if env.get("episode_length"):
+            below = [j for j, g in enumerate(steps_fold) if g <= ep["reset"]["now"]]
+            i0 = below[-1] if below else 0
+        for j, c in enumerate(calls):
+            land = steps_fold[i0 + j] if i0 + j < len(steps_fold) else None
+            if land is not None and land <= cut and c.get("exc") is None and following is None:
                 upto = c
             elif upto is not None and following is None:
                 following = c
